@@ -13,6 +13,7 @@ import (
 	"strings"
 	"sync"
 	"testing"
+	"time"
 
 	corev1 "k8s.io/api/core/v1"
 	"k8s.io/apimachinery/pkg/api/resource"
@@ -174,7 +175,7 @@ func c19PodStr(p *corev1.Pod) string {
 			parts = append(parts, string(n)+"="+q.String())
 		}
 	}
-	return fmt.Sprintf("%s{quota=%s node=%q phase=%q req=%s}", p.Name, c19Q(p), p.Spec.NodeName, p.Status.Phase, strings.Join(parts, ","))
+	return fmt.Sprintf("%s{quota=%s node=%q terminating=%v req=%s}", p.Name, c19Q(p), p.Spec.NodeName, p.DeletionTimestamp != nil, strings.Join(parts, ","))
 }
 
 // ---------------------------------------------------------------- comparison
@@ -354,7 +355,7 @@ func TestVerifC19QuotaReplay(t *testing.T) {
 		dead := false
 		sawDup, sawPodFinished, sawPending, sawTwoInQuota, sawChild, sawEarly, sawParked, sawParkedBound, sawMigrated, sawContinuation := false, false, false, false, false, false, false, false, false, false
 		maxBound := 0
-		sawDeleted := false
+		sawDeleted, sawTerminating := false, false
 
 		sorted := func(pred func(*corev1.Pod) bool) []types.UID {
 			var out []types.UID
@@ -606,6 +607,27 @@ func TestVerifC19QuotaReplay(t *testing.T) {
 				delete(persisted, u)
 				sawPodFinished = true
 			},
+			// A bound pod is deleted gracefully: it gets a deletionTimestamp and keeps running (phase unchanged) until the
+			// kubelet is done, so it stays in the informer and keeps its share (default feature gates).
+			"gracefulDelete": func(t *rapid.T) {
+				if dead {
+					return
+				}
+				uids := sorted(func(p *corev1.Pod) bool { return p.Spec.NodeName != "" && p.DeletionTimestamp == nil })
+				if len(uids) == 0 {
+					t.Skip("nothing running")
+				}
+				u := rapid.SampledFrom(uids).Draw(t, "uid")
+				old := persisted[u]
+				n := old.DeepCopy()
+				ts := metav1.NewTime(time.Unix(1700000000, 0).UTC()) // fixed stamp, nothing reads the wall clock
+				n.DeletionTimestamp = &ts
+				bump(n)
+				live.OnPodUpdate(c19Route(live, n), c19Route(live, old), n.DeepCopy(), old.DeepCopy())
+				persisted[u] = n
+				sawTerminating = true
+				hist = append(hist, "graceful delete of "+n.Name+": terminating, still bound")
+			},
 			"touch": func(t *rapid.T) {
 				if dead {
 					return
@@ -633,6 +655,7 @@ func TestVerifC19QuotaReplay(t *testing.T) {
 		c.ClassIf(sawDup, "duplicate-or-noop-event")
 		c.ClassIf(sawPodFinished, "pod-finished(delivered-as-delete)")
 		c.ClassIf(sawDeleted, "pod-deleted")
+		c.ClassIf(sawTerminating, "bound-pod-terminating(deletionTimestamp)-persisted")
 		c.ClassIf(sawPending, "pending-pod-persisted")
 		c.ClassIf(sawTwoInQuota, "two-bound-pods-in-one-quota")
 		c.ClassIf(sawChild, "bound-pod-in-child-quota")
